@@ -270,6 +270,11 @@ def check_case(run, members, fbp, extra_bp, exit_on_exception):
                             elif out[0] == "deadlock":
                                 run.fail({"subcheck": "portfolio:blocks-forever", "all_fail": True}, case,
                                          "is_sat blocks although every member process died on the query")
+                            # (nothing keeps the exception of the failed query alive: what it references - frames,
+                            #  pipes of the dead members - is gone when the next query starts)
+                            out = None
+                            import gc
+                            gc.collect()
                             judge_solve([b], "solve after a one-shot query that killed every member")
                             # an assertion made right after a one-shot query
                             out = call_with_deadlock_watch(lambda: port.is_sat(ne2))
